@@ -207,6 +207,12 @@ def scan_streams(limit, deep):
     for sq in seqs:
         for k, n in tails:
             out.append(dict(units=[dict(b=b, e=e) for b, e in sq], tail=dict(kind=k, n=n)))
+    if limit <= 300:
+        # many small events: the buffer (at its maximum size) fills again and again, its end falling on every offset of a unit
+        for off in range(0, 12 if deep else 6):
+            units = [dict(b=(i + off) % 3 * 2, e=11 + (i * 7 + off * 5) % 23) for i in range(10)]
+            out.append(dict(units=units, tail=dict(kind="none", n=0)))
+            out.append(dict(units=units[:7], tail=dict(kind="event", n=20)))
     return out
 
 
